@@ -33,6 +33,8 @@ def seeded():
         caught = [k for k, v in m.get("check_results", {}).items() if v.get("exit")]
         missed = [k for k, v in m.get("check_results", {}).items() if not v.get("exit")]
         how = "; ".join("%s: %s `%s`" % (k, v.get("replay_reason"), (v.get("replay_case") or "")[:60]) for k, v in m.get("check_results", {}).items() if v.get("exit"))
+        if m.get("out_of_scope"):
+            how = (how + "; " if how else "") + "NOT A VALID SEED - " + m["out_of_scope"]
         rows.append("| %s | %s | %s | %s | %s | %s%s | %s |" % (
             name, m.get("property"), str(m.get("mechanism", ""))[:160].replace("|", "/").replace("\n", " "),
             str(m.get("needs", ""))[:120].replace("|", "/").replace("\n", " "), conf,
